@@ -1082,6 +1082,52 @@ def lowering_guard_terms(ctx, rule="GUARD-lowering"):
         ctx.bad(rule, "pjax.PPPrimitive.lowering", "forward with hidden params", f"found {short(r2, ev2, 200) if clo2 else None}", func_loc(ctx, PJ + "PPPrimitive.__init__"))
 
 
+def sample_transform_rules(ctx, rule="OWN-keyless-impl"):
+    """Who may evaluate the staged keyless implementation of a sampling site.  `initial_style_bind` gives every primitive default
+    transformation rules that *re-trace `impl`* (eval of the staged Jaxpr — for a sampling site the KeylessWrapper's Jaxpr with the
+    process-global counter key baked in as a constant): the default batch rule (batch_fun over impl) and the default JVP rule (ad.jvp over
+    impl).  A rule that re-traces impl replaces the site by the sampler's own equations, so no sampling primitive is left for the lowering
+    rule to reject or for Seed to rewrite.  For a sampling site every such default must therefore be overridden at the bind site (as the
+    batch rule is) or consult the lowering policy before re-tracing.  (Necessary condition of C14's "through ... grad ... raises" and of
+    C06's "depends on nothing but key and args".)"""
+    ev = mk_ev(ctx)
+    ev.inline_methods_on_ctor = False
+    dotted = PJ + "create_sample_primitive"
+    s = summarize(ctx, ev, dotted)
+    loc = func_loc(ctx, dotted)
+    if s.ret[0] != "closure":
+        raise AnalysisError(f"{dotted}: binding closure not recognised")
+    r = ev.apply_closure(s.ret, (("star", ("param", "a_")),), ((None, ("param", "kw_")),))
+    binds = list(dict.fromkeys(x for x in subterms(r) if is_call(x, name=PJ + "initial_style_bind")))
+    ctx.need(len(binds) >= 1, f"{dotted}: bind site not found (anchor vanished)")
+    overridden = {k for b in binds for k, v in b[3] if k is not None}
+    # default rules of initial_style_bind that re-trace impl
+    node, mod = fnode(ctx, PJ + "initial_style_bind")
+    defaults = {}
+    for f in ast.walk(node):
+        if isinstance(f, ast.FunctionDef) and f.name in ("batch", "jvp", "abstract", "impl"):
+            names = {n.id for n in ast.walk(f) if isinstance(n, ast.Name)}
+            consults = any(isinstance(n, ast.Constant) and n.value in ("lowering_exception", "lowering_warning") for n in ast.walk(f)) or \
+                any(isinstance(n, ast.Raise) for n in ast.walk(f))
+            defaults[f.name] = ("impl" in names and f.name != "impl", consults, f.lineno)
+    ctx.need({"batch", "jvp"} <= set(defaults), "initial_style_bind: default batch/jvp rules not found (anchor vanished)")
+    for name in ("batch", "jvp"):
+        retraces, consults, ln = defaults[name]
+        construct = f"pjax.create_sample_primitive[{name} rule]"
+        if name in overridden:
+            ctx.ok(rule, construct, f"{name} rule supplied at the bind site")
+        elif not retraces or consults:
+            ctx.ok(rule, construct, f"default {name} rule does not re-trace the keyless implementation unguarded")
+        else:
+            ctx.bad(rule, construct, f"the default {name} rule (re-traces the keyless implementation) is overridden or guarded for sampling sites",
+                    f"sampling sites are bound without a {name}= rule, and initial_style_bind's default {name} rule re-traces impl: "
+                    + ("differentiating through an unseeded site (jax.grad / jax.jvp / value_and_grad) inlines the keyless sampler's Jaxpr with the global-counter key as a "
+                       "constant, so no sampling primitive is left — input: jax.jit(jax.value_and_grad(lambda x: normal.sample(x, 1.) * 2.))(0.) compiles without the lowering "
+                       "error and returns the same draw on every call; seed(jax.grad(lambda x: normal.sample(x, 1.) ** 2))(key, 0.) gives different results for the same key"
+                       if name == "jvp" else "vectorising a site replaces it by the batched keyless sampler"),
+                    f"{mod.path}:{ln}")
+
+
 def sample_bind_terms(ctx, rule="OWN-sample-bind"):
     """create_sample_primitive binds the configured primitive once, always with the lowering exception/warning, the batch rule and
     the flat keyful sampler (symbolic value of the returned `sample` closure)."""
